@@ -148,7 +148,36 @@ def strList (j : Json) : Except String (List String) := do
   (← getArr j).toList.mapM (fun x => x.getStr?)
 
 def typeIdOfJson (j : Json) : Except String TypeId := do
-  pure ⟨← (← j.getObjVal? "module").getStr?, ← strList (← j.getObjVal? "qual")⟩
+  pure ⟨← (← j.getObjVal? "module").getStr?, ← strList (← j.getObjVal? "qual"),
+        ← getNat (← j.getObjVal? "serial")⟩
+
+/-- `{"cls": typeId}` | `{"other": n}`. -/
+def refOfJson (j : Json) : Except String PyRef := do
+  if let .ok x := j.getObjVal? "cls" then return .cls (← typeIdOfJson x)
+  if let .ok x := j.getObjVal? "other" then return .other (← getNat x)
+  err s!"ref: unknown {j.compress}"
+
+def lookupEdge (o : PyRef) (n : String) : List (PyRef × String × PyRef) → Option PyRef
+  | [] => none
+  | (o', n', r) :: rest => if o = o' ∧ n = n' then some r else lookupEdge o n rest
+
+/-- `{"moduleName", "builtins": ref, "sutModule": ref | null, "getattr": [[ref, name, ref], …]}`. -/
+def typeEnvOfJson (tej : Json) : Except String TypeEnv := do
+  let edges ← (← getArr (← tej.getObjVal? "getattr")).toList.mapM (fun p => do
+    let a ← getArr p
+    if a.size != 3 then err "getattr entry: want [owner, name, target]"
+    pure ((← refOfJson a[0]!), (← a[1]!.getStr?), (← refOfJson a[2]!)))
+  let sut ← match (← tej.getObjVal? "sutModule") with
+    | .null => pure none
+    | r => do pure (some (← refOfJson r))
+  pure ⟨← (← tej.getObjVal? "moduleName").getStr?,
+        ⟨fun o n => lookupEdge o n edges, ← refOfJson (← tej.getObjVal? "builtins")⟩, sut⟩
+
+def globalsOfJson (nsj : Json) : Except String (List (String × PyRef)) := do
+  (← getArr (← nsj.getObjVal? "globals")).toList.mapM (fun p => do
+    let a ← getArr p
+    if a.size != 2 then err "globals entry: want [name, ref]"
+    pure ((← a[0]!.getStr?), (← refOfJson a[1]!)))
 
 partial def avalOfJson (j : Json) : Except String AVal := do
   match j with
@@ -261,15 +290,11 @@ def runHist (j : Json) : Except String Json := do
   let prec ← floatOfJson (← j.getObjVal? "prec")
   let lim ← getNat (← j.getObjVal? "lim")
   let tej ← j.getObjVal? "te"
-  let resolving ← (← getArr (← tej.getObjVal? "resolves")).toList.mapM typeIdOfJson
-  let te : TypeEnv := ⟨← (← tej.getObjVal? "moduleName").getStr?, fun t => resolving.contains t⟩
+  let te ← typeEnvOfJson tej
   let aliasOf ← (← j.getObjVal? "alias").getStr?
   let env : RenderEnv := ⟨fun _ => aliasOf⟩
   let nsj ← j.getObjVal? "ns"
-  let types ← (← getArr (← nsj.getObjVal? "types")).toList.mapM (fun p => do
-    let a ← getArr p
-    if a.size != 2 then err "types entry: want [path, typeId]"
-    pure ((← strList a[0]!), (← typeIdOfJson a[1]!)))
+  let globals ← globalsOfJson nsj
   let enums ← strList (← nsj.getObjVal? "enums")
   let hs ← (← getArr (← j.getObjVal? "positions")).toList.mapM hsnapOfJson
   let hEnd : Heap := match hs.getLast? with
@@ -281,7 +306,7 @@ def runHist (j : Json) : Except String Json := do
     | return Json.mkObj [("err", "dangling-reference")]
   let renderJ (a : Assertion) : Option Json := (renderLim lim env prec a).map stmtToJson
   let outs := (hs.zip (snaps.zip recorded)).map (fun (h, s, as) =>
-    let ns := nsAt aliasOf enums types s
+    let ns := nsAt aliasOf enums globals te.world s
     -- what a shallow copy / no copy would show when the assertions are rendered (diagnosis only)
     let table (mode : CopyMode) : List (String × AVal) :=
       match h.observeWith fuel mode hEnd with
@@ -319,17 +344,13 @@ def runCase (j : Json) : Except String Json := do
     let prec ← floatOfJson (← j.getObjVal? "prec")
     let lim ← getNat (← j.getObjVal? "lim")
     let tej ← j.getObjVal? "te"
-    let resolving ← (← getArr (← tej.getObjVal? "resolves")).toList.mapM typeIdOfJson
-    let te : TypeEnv := ⟨← (← tej.getObjVal? "moduleName").getStr?, fun t => resolving.contains t⟩
+    let te ← typeEnvOfJson tej
     let aliasOf ← (← j.getObjVal? "alias").getStr?
     let env : RenderEnv := ⟨fun _ => aliasOf⟩
     let nsj ← j.getObjVal? "ns"
-    let types ← (← getArr (← nsj.getObjVal? "types")).toList.mapM (fun p => do
-      let a ← getArr p
-      if a.size != 2 then err "types entry: want [path, typeId]"
-      pure ((← strList a[0]!), (← typeIdOfJson a[1]!)))
     let ns : Namespace := { vars := [(src, v)], enumClasses := ← strList (← nsj.getObjVal? "enums"),
-                            types := types, hasPytest := ← (← nsj.getObjVal? "pytest").getBool? }
+                            globals := ← globalsOfJson nsj, world := te.world,
+                            hasPytest := ← (← nsj.getObjVal? "pytest").getBool? }
     let assertions := checkValue te src v
     let outs := assertions.map (fun a =>
       match renderLim lim env prec a with
